@@ -37,10 +37,13 @@ pub fn run(pid: &str, tier: &str, seed: u64) {
     "C12" => crate::o_ppoprf::c12(tier, seed),
     "C13" => crate::o_ppoprf::c13(tier, seed),
     "C14" => crate::o_ppoprf::c14(tier, seed),
+    "C15" => crate::o_codec::c15(tier, seed),
     "C16" => crate::o_star::c16(tier, seed),
     "C06" => crate::o_sharks::c06(tier, seed),
     "C07" => crate::o_sharks::c07(tier, seed),
     "C08" => crate::o_wire::c08(tier, seed),
+    "C17" => crate::o_agg::c17(tier, seed),
+    "C18" => crate::o_agg::c18(tier, seed),
     _ => {
       eprintln!("no oracle for {}", pid);
       std::process::exit(2);
